@@ -514,7 +514,12 @@ def r11_queued_fetch_survives_planning(ctx):
     D, Dc = ds("D", "p"), ds("Dc", "c")
     H1 = Atom("H1")
     Wa, Wb = worker(H1, "w0"), worker(H1, "w1")
-    asg = Obj("cascade.scheduler.core.Assignment", {"worker": Wb, "tasks": ["c"], "prep": [(D, H1)], "outputs": {Dc}}, name="ASSIGNMENT")
+    from .common import model_elem
+    prep = [model_elem(repo, "cascade.scheduler.core.Assignment", "prep", (D, H1))]
+    _ci, _ann = repo.field_ann("cascade.scheduler.core.Assignment", "prep")
+    if _ann is not None and ast.unparse(_ann).startswith(("dict", "Dict")):
+        prep = {D: H1}
+    asg = Obj("cascade.scheduler.core.Assignment", {"worker": Wb, "tasks": ["c"], "prep": prep, "outputs": {Dc}}, name="ASSIGNMENT")
     env = {
         "state.fetching_queue": {D: H1},
         "state.outputs": {D: None},
